@@ -32,8 +32,49 @@ def wrap_alt(ast):
     return "(?:" + t + ")" if ast["k"] == "alt" else t
 
 
+def gen_tight_integer(ctx):
+    """an integer in a narrow window with fractional and / or exclusive bounds (either sign) and possibly multipleOf: few
+    or single witnesses, so that a bound that is off by one empties the language (a dead end, not a wrong verdict)"""
+    rng = ctx.rng
+    lo = rng.randint(-6, 6) + rng.choice([0, 0.5, -0.5, 0.25, -0.75])
+    hi = lo + rng.choice([0.5, 1, 1.5, 2, 3])
+    s = {"type": "integer"}
+    s["exclusiveMinimum" if rng.random() < 0.5 else "minimum"] = lo
+    if rng.random() < 0.8:
+        s["exclusiveMaximum" if rng.random() < 0.4 else "maximum"] = hi
+    if rng.random() < 0.5:
+        s["multipleOf"] = rng.choice([2, 2, 3, 4])
+    return s
+
+
+def tight_integer_family():
+    """required integer property in a narrow window: fractional / exclusive bounds of either sign, optional multipleOf;
+    only members with at least one witness (decided here with exact fractions; the engine's verdicts are not used)"""
+    from fractions import Fraction as Fr
+    out = []
+    for lo in ("-4.5", "-3.5", "-2.5", "-1.5", "-0.5", "0.5", "1.5", "2.5", "-3", "-2", "-1", "2", "3", "-2.25", "1.75"):
+        for lo_excl in (True, False):
+            for width in ("0.5", "1", "1.5", "2", "3"):
+                for hi_excl in (False, True):
+                    for mult in (None, 2, 3, 4):
+                        a, b = Fr(lo), Fr(lo) + Fr(width)
+                        wit = [k for k in range(-12, 13)
+                               if (a < k if lo_excl else a <= k) and (k < b if hi_excl else k <= b) and (mult is None or k % mult == 0)]
+                        if not wit:
+                            continue
+                        n = {"type": "integer", ("exclusiveMinimum" if lo_excl else "minimum"): float(a),
+                             ("exclusiveMaximum" if hi_excl else "maximum"): float(b)}
+                        if mult:
+                            n["multipleOf"] = mult
+                        shape = {"type": "object", "properties": {"n": n}, "required": ["n"], "additionalProperties": False}
+                        out.append((f"tight:{lo}:{int(lo_excl)}:{width}:{int(hi_excl)}:{mult}:w{len(wit)}", shape))
+    return out
+
+
 def gen_number_schema(ctx, integer):
     rng = ctx.rng
+    if integer and rng.random() < 0.25:
+        return gen_tight_integer(ctx)
     s = {"type": "integer" if integer else "number"}
     r = rng.random()
     lo = rng.choice([-5, -1, 0, 1, 3, 10])
